@@ -25,6 +25,7 @@ import (
 	"github.com/avfs/avfs/vfs/orefafs"
 
 	"verif/lib/bfs"
+	"verif/lib/concfs"
 	"verif/lib/ev"
 	"verif/lib/fsx"
 	"verif/lib/kf"
@@ -40,6 +41,7 @@ type hooked interface {
 type sys struct {
 	name    string // MemFS | OrefaFS
 	win     bool
+	tree    bool // start from a non-initial state: /a/{a (file, second name /b)}
 	v       hooked
 	ops     []fsx.Call
 	tier    string
@@ -86,6 +88,21 @@ func (s *sys) Reset() error {
 	}
 
 	_ = s.v.SetUMask(0o022)
+
+	if s.tree {
+		j := func(e ...string) string { return s.root + strings.Join(e, s.sep) }
+
+		for _, c := range []fsx.Call{
+			{Op: "Mkdir", A: j("a"), Perm: 0o755},
+			{Op: "WriteFile", A: j("a", "a"), Data: "hello", Perm: 0o644},
+			{Op: "Link", A: j("a", "a"), B: j("b")},
+		} {
+			if r := fsx.Do(s.v, c); r.Kind != "ok" {
+				return fmt.Errorf("setup %s: %s", c, r)
+			}
+		}
+	}
+
 	s.lastKey = s.key()
 
 	return nil
@@ -386,15 +403,24 @@ func (s *sys) unrelated(c fsx.Call, tch, before, after []string, res fsx.Res) []
 		}
 	}
 
+	// every name of a file whose hard-link class is touched may change with it
+	// (link count, content, mode, and the class label itself when the name that
+	// labelled the class goes away)
+	member := map[string]bool{}
+
+	for _, set := range [][]string{before, after} {
+		for _, l := range set {
+			if cl := classOf(l); cl != "" && classes[cl] {
+				member[pathOf(l)] = true
+			}
+		}
+	}
+
 	var un []string
 
 	for _, l := range changed {
 		p := pathOf(l[1:])
-		if allowed(p, l[0] == '+') {
-			continue
-		}
-
-		if cl := classOf(l[1:]); cl != "" && classes[cl] {
+		if allowed(p, l[0] == '+') || member[p] {
 			continue
 		}
 
@@ -745,6 +771,7 @@ func factory(tier string) func(string) bfs.System {
 
 		parts := strings.Split(name, "/")
 		s := &sys{name: parts[0], win: len(parts) > 1 && parts[1] == "Windows", tier: tier, root: "/", sep: "/"}
+		s.tree = len(parts) > 2 && parts[2] == "tree"
 
 		if s.win {
 			s.root, s.sep = `C:\`, `\`
@@ -756,13 +783,37 @@ func factory(tier string) func(string) bfs.System {
 	}
 }
 
+// concPlan is the concurrent clause of C05 ("... and by any concurrent
+// execution"): the final state of every schedule of the pair programs must
+// satisfy the node-graph invariants.
+func concPlan(tier string) concfs.Plan {
+	pl := concfs.Plan{ID: "C05", Oracle: concfs.OrInvariant, Bound: 2, PerProg: 20 * time.Second}
+
+	for _, fs := range []string{"MemFS", "OrefaFS"} {
+		pl.Programs = append(pl.Programs, concfs.Pairs(fs, false, concfs.Templates(fs, false, true))...)
+	}
+
+	if tier == "thorough" {
+		pl.Bound = 3
+
+		for _, fs := range []string{"MemFS", "OrefaFS"} {
+			pl.Programs = append(pl.Programs, concfs.Triples(fs, concfs.SingleStep(concfs.Templates(fs, true, true)))...)
+		}
+	}
+
+	return pl
+}
+
 func main() {
+	concfs.MaybeShard(concPlan)
+
 	id := flag.String("id", "C05", "")
 	tier := flag.String("tier", "quick", "")
 	depth := flag.Int("depth", 0, "")
 	systems := flag.String("systems", "", "")
 	var wflag string
 	flag.StringVar(&wflag, "bfsworker", "", "")
+	noconc := flag.Bool("noconc", false, "skip the concurrent part")
 	flag.Parse()
 
 	bfs.MaybeWorker(factory(*tier))
@@ -790,7 +841,7 @@ func main() {
 	case ostBuild:
 		sysNames = []string{"MemFS/Windows", "OrefaFS/Windows", "MemFS/Linux", "OrefaFS/Linux"}
 	default:
-		sysNames = []string{"MemFS/Linux", "OrefaFS/Linux"}
+		sysNames = []string{"MemFS/Linux", "OrefaFS/Linux", "MemFS/Linux/tree", "OrefaFS/Linux/tree"}
 	}
 
 	d := *depth
@@ -876,6 +927,37 @@ func main() {
 
 	_ = suffix
 
+	// concurrent clause (Linux-typed build only; one pass is enough)
+	var conc map[string]any
+
+	if !ostBuild && *systems == "" && !*noconc {
+		cb := 120
+		if *tier == "thorough" {
+			cb = 600
+		}
+
+		if budget > 0 && budget < cb {
+			cb = budget
+		}
+
+		total, herr := concfs.RunPlan(concPlan(*tier), rep, cb)
+		if herr != "" {
+			harnessErr = "concurrent part: " + herr
+		}
+
+		conc = map[string]any{}
+		concfs.AddCoverage(conc, total, concPlan(*tier).Bound)
+		conc["distinct_outcomes"] = total.DistinctOut
+		states += total.DistinctOut
+		trans += total.Executions
+
+		if total.TimedOut > 0 {
+			exh = false
+		}
+
+		fmt.Printf("C05 concurrent: programs=%d schedules=%d min-bound=%d timed-out=%d\n", total.Programs, total.Executions, total.MinBound, total.TimedOut)
+	}
+
 	code := rep.Finish()
 	if harnessErr != "" {
 		fmt.Fprintln(os.Stderr, "harness error:", harnessErr)
@@ -889,7 +971,7 @@ func main() {
 
 	if ost := os.Getenv("VERIF_BIN") + ".ost"; !ostBuild && *systems == "" && code != 2 {
 		if _, err := os.Stat(ost); err == nil {
-			cmd := exec.Command(ost, "-id", *id, "-tier", *tier, "-systems", "MemFS/Windows,OrefaFS/Windows")
+			cmd := exec.Command(ost, "-id", *id, "-tier", *tier, "-systems", "MemFS/Windows,OrefaFS/Windows,MemFS/Windows/tree,OrefaFS/Windows/tree")
 			cmd.Stdout, cmd.Stderr = os.Stdout, os.Stderr
 			err := cmd.Run()
 
@@ -936,7 +1018,7 @@ func main() {
 			"rule":       "every history of length <= bound over the call alphabet (valid, invalid and aliased operands) executed on fresh real instances; distinct_nontrivial = distinct (call, outcome kind) classes observed",
 			"samples":    samples,
 			"exhaustive": exh, "bound": fmt.Sprintf("histories of length <= %d (completed %d)", d, depthDone),
-			"systems": all, "known_findings_matched": rep.KnownMatched(), "ostype_build": ostBuild, "windows_typed_run": ostRun,
+			"systems": all, "known_findings_matched": rep.KnownMatched(), "ostype_build": ostBuild, "windows_typed_run": ostRun, "concurrent_final_state_invariants": conc,
 		},
 		Assumptions: []string{
 			"state identity = injected node-graph dump (VerifDump) + cwd; mtimes and inode numbers are not part of a state",
